@@ -41,7 +41,7 @@ struct Ctx
 };
 extern Ctx *C;
 
-int parse_call_id(const QString &msg);
+int parse_call_id(const QtLogger::LogMessage &m);
 void note_thread();
 void do_log(int producer, int opidx, const Op &op, bool fatal);
 const Op &nested_op(); // the fixed message a relog handler logs (producer 62)
